@@ -92,8 +92,8 @@ Fixpoint insert_by_idx (p : nat * B) (l : list (nat * B)) : list (nat * B) :=
   | [] => [p]
   | q :: l' => if fst p <=? fst q then p :: l else q :: insert_by_idx p l'
   end.
-(* insertion sort on the index, stable like Python's sorted (an element is inserted before the first element whose
-   key is >= ... processed from the right, so equal keys keep their order) *)
+(* insertion sort on the index; stable like Python's sorted: the head is inserted into the sorted tail before the
+   first element whose key is >= its own, so equal keys keep their relative order *)
 Fixpoint sort_by_idx (l : list (nat * B)) : list (nat * B) :=
   match l with
   | [] => []
